@@ -1,5 +1,6 @@
 import Lean.Data.Json
 import Cdecao.Model.Hungarian
+import Cdecao.Model.HungarianI32
 import Cdecao.Model.Node
 import Cdecao.Model.NodeS
 import Cdecao.Model.Util
@@ -48,6 +49,16 @@ def handleH (payload : String) : String :=
   match parseHung payload with
   | some (I, _) =>
     match H2.run I with
+    | none => "P"
+    | some (mm, sc) => s!"M {fmtOptNatList ((List.range I.ny).map mm.get)} {sc}"
+  | none => "bad"
+
+/-- `HB`: the range-checked (i32) model of the matching routine: `P` when any intermediate value
+    leaves the i32 range (the real code, built with overflow checks, panics there) -/
+def handleHB (payload : String) : String :=
+  match parseHung payload with
+  | some (I, _) =>
+    match H2B.run32 I with
     | none => "P"
     | some (mm, sc) => s!"M {fmtOptNatList ((List.range I.ny).map mm.get)} {sc}"
   | none => "bad"
@@ -753,6 +764,7 @@ def dispatch (line : String) : String :=
   | [tag, payload] =>
     match tag with
     | "H" => handleH payload
+    | "HB" => handleHB payload
     | "HS" => handleHS payload
     | "N" => handleN payload
     | "A" => handleA payload
